@@ -186,10 +186,13 @@ class Patched:
 class LineInjector:
     """fires `fn` once, at the k-th executed line inside curtsies/input.py (sys.settrace)"""
 
-    def __init__(self, k, fn):
+    def __init__(self, k, fn, suspended=None):
         self.k, self.fn, self.count, self.fired = k, fn, 0, False
+        self.suspended = suspended  # () -> bool: lines executed while this holds are not injection points
 
     def _local(self, frame, event, arg):
+        if self.suspended is not None and self.suspended():
+            return self._local
         if event == "line" and not self.fired:
             self.count += 1
             if self.count == self.k:
